@@ -128,11 +128,59 @@ def run(ctx):
             ctx.violation(bad[0], sequence=[{k: v for k, v in c.items()} for c in seq[:bad[1] + 1]])
         if len(ctx.samples) < 2:
             ctx.sample({'sequence': [(c['kind'], c['src'][:80]) for c in seq]})
+    options_history(ctx)
     server_history(ctx)
     # the model is a function of its arguments: correspondence on the same calls ties the implementation to it
     flat = [c for seq in seqs for c in seq][:ctx.scale(150, 3000)]
     res = ctx.pmap(t2t.run_case, flat)
     corr.t2t(ctx, flat, res, proj=('outcome', 'text', 'unknowns'), limit=len(flat))
+
+# ---- one Options object (replacement / definition files read once) used for several documents --------
+
+def options_reuse(args):
+    """what the command-line tools do: the --repl and --defs files are read once (tex2txt.read_replacements,
+    read_definitions), the resulting Options object serves every document of the run"""
+    rules, defs, docs = args
+    import tempfile, shutil
+    m = impl.load()
+    d = tempfile.mkdtemp(prefix='yvr_')
+    try:
+        fr, fd = os.path.join(d, 'repl.txt'), os.path.join(d, 'defs.tex')
+        open(fr, 'w', encoding='utf-8').write(''.join(l + '\n' for l in rules))
+        open(fd, 'w', encoding='utf-8').write(defs)
+        def options():
+            return m.tex2txt.Options(lang='en', pack='*', repl=m.tex2txt.read_replacements(fr, 'utf-8'),
+                                     defs=m.tex2txt.read_definitions(fd, 'utf-8'))
+        def shared():
+            o = options()
+            return [(lambda r: (r[0], list(r[1])))(m.tex2txt.tex2txt(x, o)) for x in docs]
+        def fresh():
+            return [(lambda r: (r[0], list(r[1])))(m.tex2txt.tex2txt(x, options())) for x in docs]
+        a, b = impl.guarded(shared, 60), impl.guarded(fresh, 60)
+        return {'shared': (a['outcome'], a['value'], a.get('exc')), 'fresh': (b['outcome'], b['value'], b.get('exc'))}
+    finally:
+        shutil.rmtree(d, ignore_errors=True)
+
+def options_history(ctx):
+    rng = ctx.rng
+    cases = []
+    W = ['so', 'dass', 'teh', 'alpha', 'beta', 'gamma', 'Word', 'z.', 'B.', 'and', 'the', 'end']
+    for _ in range(ctx.scale(24, 400)):
+        rules = [rng.choice(['so dass & sodass', 'teh & the', 'alpha beta & ab', 'z. B. & zum Beispiel', '# comment', '', 'gamma & ', 'the end & finis'])
+                 for _ in range(rng.randint(1, 4))]
+        defs = rng.choice(['', '\\newcommand{\\dd}[1]{teh #1 end}\n', '\\def\\dd#1{alpha #1}\n\\newcommand{\\ee}{so dass}\n'])
+        docs = [' '.join(rng.choice(W + ['\\dd{x}', '\\ee{}', '$x$', '\\item']) for _ in range(rng.randint(4, 12))) + '.' for _ in range(rng.randint(2, 3))]
+        docs.append(docs[0])
+        cases.append((rules, defs, docs))
+    for c, r in zip(cases, ctx.pmap(options_reuse, cases)):
+        ctx.case(('options-reuse', tuple(c[0]), c[1], tuple(c[2]))); ctx.count('options_reuse_' + r['shared'][0])
+        if r['shared'] != r['fresh']:
+            k = 0
+            if r['shared'][1] and r['fresh'][1]:
+                k = next((i for i, (x, y) in enumerate(zip(r['shared'][1], r['fresh'][1])) if x != y), 0)
+            ctx.violation('document %d of a run that reads its --repl / --defs files once gives %r; processed on its own with the same files it gives %r'
+                          % (k + 1, str((r['shared'][1] or [r['shared'][2]])[k])[:160], str((r['fresh'][1] or [r['fresh'][2]])[k])[:160]),
+                          kind='options-reuse', rules=c[0], defs=c[1], docs=c[2])
 
 # ---- consecutive requests to one --as-server process ---------------------------------
 
@@ -212,6 +260,9 @@ def gls_class(seq):
     return False
 
 def judge_witness(w):
+    if w.get('kind') == 'options-reuse':
+        r = options_reuse((w['rules'], w['defs'], w['docs']))
+        return ['documents of one run differ from the documents processed alone'] if r['shared'] != r['fresh'] else []
     if w.get('server'):
         together, alone = server_case((w['requests'], w['lt_options']))
         return ['server request differs'] if together != alone else []
